@@ -175,6 +175,9 @@ def jobs(tier):
             for n in ((3,) if q else (3, 4)):
                 if BC == 'reflect' and ps // 2 >= n: continue
                 J.append(Job(f'Deconvolution2D.projectors:BC={BC}:PSF={ps}x{ps}:image={n}x{n}', lambda c, n=n, ps=ps, BC=BC: proj2d(c, n, ps, BC), 'Pbox', TPF, timeout=900))
+    # point-spread function wider than the image (PSF_size // 2 >= image side): every pixel overlaps every other one
+    for BC in ('wrap', 'constant'):
+        J.append(Job(f'Deconvolution2D.projectors:BC={BC}:PSF=7x7:image=3x3', lambda c, BC=BC: proj2d(c, 3, 7, BC), 'Pbox', TPF, timeout=900))
     for BC in ('periodic', 'zero'):
         for ps in (3,) if q else (3, 5):
             J.append(Job(f'Deconvolution2D.shipped:BC={BC}:PSF_size={ps}:dim=4', lambda c: shipped(c, 'Deconvolution2D'), 'Pbox',
